@@ -326,8 +326,6 @@ Qed.
 
 (* ------------------------------------------------------------------ started / completed: trace form *)
 
-Definition pend_flag (ev : event) (f : flags) : bool :=
-  match ev with EvStarted => f_start f | EvCompleted => f_completed f | _ => false end.
 
 Lemma ctl_receive_success_flag ev latest ni x : mask_excl (fl x) -> pend_flag ev (fl x) = true -> (ev = EvStarted \/ ev = EvCompleted) ->
   latest <> ev \/ f_active (fl x) = false ->
@@ -350,7 +348,7 @@ Lemma send_completed_flag s : f_completed (fl (send_completed_event s)) = true.
 Proof.
   unfold send_completed_event. set (s1 := set_fl s _).
   destruct (negb (f_active (fl s1)) || negb (has_usable (trs s1))); [reflexivity |].
-  destruct (send_to_in_use_E SrcCompleted EvCompleted (ctl_close s1)) as [_ (h & _)]. rewrite h. reflexivity.
+  destruct (send_to_in_use_E SrcCompleted EvCompleted (ctl_close s1) eq_refl) as [_ (h & _)]. rewrite h. reflexivity.
 Qed.
 
 Lemma find_id_upd l id f : (forall x, t_id (f x) = t_id x) -> find_id (upd l id f) id = option_map f (find_id l id).
@@ -592,10 +590,8 @@ Proof. eexists. split; [vm_compute; left; reflexivity |]. vm_compute. repeat spl
 
 (* ------------------------------------------------------------------ tracker identities stay unique *)
 
-Definition ids (s : state) : list nat := map t_id (trs s).
-
 Lemma keeps_ids s s' : keeps s s' -> ids s' = ids s.
-Proof. intros (_&_&_&_&_&_&h). exact h. Qed.
+Proof. intros (_&_&_&_&_&_&h&_). exact h. Qed.
 
 Lemma clear_stats_ids l : map t_id (clear_stats l) = map t_id l.
 Proof. unfold clear_stats. rewrite map_map. apply map_ext. reflexivity. Qed.
@@ -756,7 +752,8 @@ Proof. intros a b c. unfold can_request_state, busy_ann. rewrite a, b, c. reflex
 Lemma send_event_cancels sr t ev s k :
   pend (send_event sr t ev s) = Some (t_id t, k) -> log (send_event sr t ev s) = log s.
 Proof.
-  unfold send_event. destruct (negb (is_usable t)); [reflexivity |].
+  unfold send_event. destruct (negb (existsb (Nat.eqb (t_id t)) (map t_id (trs s)))); [reflexivity |].
+  destruct (negb (is_usable t)); [reflexivity |].
   destruct (t_busy t && (event_eqb (t_ev t) ev || (negb (event_eqb (t_ev t) EvScrape) && event_eqb ev EvNone))); [reflexivity |].
   simpl. destruct (pend s) as [[i k'] |]; [| discriminate].
   destruct (Nat.eqb i (t_id t)) eqn:E; [discriminate |]. intros H. inversion H; subst. rewrite Nat.eqb_refl in E. discriminate.
@@ -771,4 +768,307 @@ Proof.
   destruct (t_scr t) eqn:Hs; simpl; [| intros H; contradiction H; reflexivity].
   destruct (now s <? (t_sct t + scrape_min_gap) * usec) eqn:Hg; [intros H; contradiction H; reflexivity |].
   intros _. apply Z.ltb_ge in Hg. auto.
+Qed.
+
+(* ------------------------------------------------------------------ trace forms *)
+
+(* every logged request carries the figures of the download info at the moment it was sent: those of the
+   state reached by the op list before the sending op (reset to 0 / 0 first when that op is a Download::start) *)
+Lemma figures_trace ops : forall s0, Inv s0 -> forall r, In r (log (run s0 ops)) ->
+  In r (log s0) \/ exists ops1 o ops2, ops = ops1 ++ o :: ops2 /\
+    (let '(up, comp, lft) := figs_for (run s0 ops1) o in
+     r_up r = Z.max up 0 /\ r_comp r = Z.max comp 0 /\ r_left r = lft).
+Proof.
+  induction ops as [| o ops IH]; intros s0 HI r Hin; simpl in Hin; [left; exact Hin |].
+  destruct (IH (step s0 o) (Inv_step s0 o HI) r Hin) as [H | (ops1 & o' & ops2 & E & H)].
+  - destruct HI as (Hm & _). destruct (step_spec s0 Hm o) as (_ & _ & _ & [new [e1 e2]]).
+    rewrite e1 in H. apply in_app_or in H. destruct H as [H | H]; [| left; exact H].
+    right. exists [], o, ops. split; [reflexivity |]. rewrite Forall_forall in e2. destruct (e2 r H) as (_ & h & _).
+    simpl. destruct o; exact h.
+  - right. exists (o :: ops1), o', ops2. split; [simpl; rewrite E; reflexivity | exact H].
+Qed.
+
+Lemma figures_match_transfer_state_trace t0 groups ops r :
+  In r (log (run (init t0 groups) ops)) ->
+  exists ops1 o ops2, ops = ops1 ++ o :: ops2 /\
+    (let '(up, comp, lft) := figs_for (run (init t0 groups) ops1) o in
+     r_up r = Z.max up 0 /\ r_comp r = Z.max comp 0 /\ r_left r = lft).
+Proof.
+  intros Hin. destruct (figures_trace ops (init t0 groups) (Inv_init _ _) r Hin) as [H | H]; [simpl in H; contradiction | exact H].
+Qed.
+
+(* tier order with scrapes in flight: an enabled never-failed tracker of an earlier group that is only busy with a
+   SCRAPE does not excuse contacting a later group: the not-due condition must hold *)
+Lemma tier_order_scrape_in_flight t0 groups ops r u :
+  In r (log (run (init t0 groups) ops)) ->
+  r_src r = SrcTimer -> f_promisc (r_fl r) = false -> f_requesting (r_fl r) = false ->
+  In u (r_trs r) -> (t_group u < t_group (r_pre r))%nat -> t_en u = true -> t_fc u = 0 -> t_ev u = EvScrape ->
+  activity_time_next (r_pre r) <= activity_time_next u /\
+  exists p, In p (r_trs r) /\ can_request_state p = true /\ t_fc p <> 0.
+Proof.
+  intros Hin Hs Hp Hr Hu Hg He Hf Hsc.
+  destruct (tier_order t0 groups ops r Hin Hs) as [H | [H | H]]; [congruence | congruence |].
+  destruct (H u Hu Hg He Hf) as [Hb | Hb]; [| exact Hb].
+  unfold busy_ann in Hb. rewrite Hsc in Hb. simpl in Hb. rewrite andb_false_r in Hb. discriminate.
+Qed.
+
+(* ------------------------------------------------------------------ J: list / log / queued-callback invariant *)
+
+Lemma J_map s s' (g : tracker -> tracker) :
+  trs s' = map g (trs s) -> log s' = log s -> pend s' = pend s -> pmark s' = pmark s -> slog s' = slog s ->
+  (forall x, t_id (g x) = t_id x /\ t_ev (g x) = t_ev x /\ (busy_ann (g x) = true -> busy_ann x = true)) ->
+  J s -> J s'.
+Proof.
+  intros Ht Hl Hp Hm Hsl Hg (Jk & Jt & Jm & Jp & Js). unfold J, ids in *. rewrite Ht, Hl, Hp, Hm, Hsl.
+  assert (Hids : map t_id (map g (trs s)) = map t_id (trs s)) by (rewrite map_map; apply map_ext; intros x; apply Hg).
+  ssplit; auto.
+  - rewrite Hids. exact Jk.
+  - rewrite Forall_forall in *. intros y Hy. apply in_map_iff in Hy. destruct Hy as [x [E Hx]]. subst y.
+    destruct (Jt x Hx) as [Pe Pp]. destruct (Hg x) as (gi & ge & gb). split.
+    + unfold Pev in *. rewrite gi, ge. exact Pe.
+    + unfold Ppend in *. intros id k Hk Hid. rewrite gi in Hid. specialize (Pp id k Hk Hid).
+      destruct (busy_ann (g x)) eqn:Eb; [| reflexivity]. rewrite (gb eq_refl) in Pp. discriminate.
+Qed.
+
+Lemma upd_as_map l id f : upd l id f = map (fun t => if Nat.eqb (t_id t) id then f t else t) l.
+Proof. reflexivity. Qed.
+
+Lemma J_upd s id f :
+  (forall x, t_id (f x) = t_id x /\ t_ev (f x) = t_ev x /\ (busy_ann (f x) = true -> busy_ann x = true)) ->
+  J s -> J (set_trs s (upd (trs s) id f)).
+Proof.
+  intros Hf. apply (J_map s _ (fun t => if Nat.eqb (t_id t) id then f t else t)); try reflexivity.
+  intros x. destruct (Nat.eqb (t_id x) id); [apply Hf | auto].
+Qed.
+
+Lemma J_perm s s' : Permutation (trs s') (trs s) -> log s' = log s -> pend s' = pend s -> pmark s' = pmark s -> slog s' = slog s -> J s -> J s'.
+Proof.
+  intros Hp Hl Hpe Hm Hsl (Jk & Jt & Jm & Jp & Js). unfold J, ids in *. rewrite Hl, Hpe, Hm, Hsl. ssplit; auto.
+  - eapply Forall_impl; [| exact Jk]. intros r Hr. simpl in Hr.
+    eapply Permutation_in; [apply Permutation_map, Permutation_sym, Hp | exact Hr].
+  - eapply Permutation_Forall; [apply Permutation_sym, Hp | exact Jt].
+Qed.
+
+Lemma newest_none id l : Forall (fun r => r_id r <> id) l -> newest_for id l = None.
+Proof.
+  unfold newest_for. induction 1 as [| r l Hr Hl IH]; simpl; [reflexivity |].
+  destruct (Nat.eqb (r_id r) id) eqn:E; [apply Nat.eqb_eq in E; contradiction | exact IH].
+Qed.
+
+Lemma J_update_timeout n s : J s -> J (update_timeout n s).
+Proof.
+  destruct (update_timeout_same n s) as (a&b&c&_). destruct (update_timeout_j n s) as (d&e&f). apply J_same; assumption.
+Qed.
+
+Lemma J_ctl_enable reset s : J s -> J (ctl_enable reset s).
+Proof.
+  intros H. unfold ctl_enable. destruct (f_active (fl s)); [exact H |]. apply J_update_timeout.
+  destruct reset; [| apply (J_same s); [reflexivity | reflexivity | reflexivity | reflexivity | reflexivity | exact H]].
+  apply (J_map s _ (fun x => mkT (t_id x) (t_group x) (t_en x) (t_busy x) (t_ev x) 0 0 (t_stl x) (t_ftl x) (t_ni x) (t_mi x) (t_scr x) (t_sct x)));
+    try reflexivity; [| exact H]. intros x. ssplit; auto.
+Qed.
+
+Lemma J_ctl_receive_success e n x : J x -> J (ctl_receive_success e n x).
+Proof.
+  intros H. unfold ctl_receive_success. destruct (negb (f_active (fl x))); [exact H |].
+  match goal with |- context [set_fl x ?f] => assert (H1 : J (set_fl x f)) by (apply (J_same x); [reflexivity | reflexivity | reflexivity | reflexivity | reflexivity | exact H]) end.
+  destruct (f_requesting (fl x)); [apply J_update_timeout; exact H1 |].
+  match goal with |- context [if ?c then _ else _] => destruct c end; [apply J_update_timeout |]; exact H1.
+Qed.
+
+Lemma J_main_part id ok scr x : J x -> J (main_part id ok scr x).
+Proof.
+  intros H. unfold main_part. destruct scr.
+  - unfold main_scrape. destruct ok; [| exact H]. apply J_upd; [| exact H]. intros y. ssplit; auto.
+  - destruct ok.
+    + unfold main_success. destruct (find_id (trs x) id); [| exact H]. apply J_ctl_receive_success.
+      match goal with |- J (set_trs x (upd ?l id ?f)) =>
+        assert (H1 : J (set_trs x l)) by (apply (J_perm x); [apply promote_perm | reflexivity | reflexivity | reflexivity | reflexivity | exact H]);
+        apply (J_upd (set_trs x l) id f) in H1; [exact H1 | intros y; ssplit; auto] end.
+    + unfold main_failure. simpl.
+      match goal with |- context [set_trs x (upd (trs x) id ?f)] => assert (H1 : J (set_trs x (upd (trs x) id f))) by (apply J_upd; [intros y; ssplit; auto | exact H]) end.
+      destruct (negb (f_active (fl x))); [exact H1 |].
+      match goal with |- J (do_timeout ?y) => destruct (do_timeout_E y) as [_ (_ & k)]; apply k end.
+      eapply J_same; [| | | | | exact H1]; reflexivity.
+Qed.
+
+Lemma worker_upd_J r x : t_id (worker_upd r x) = t_id x /\ t_ev (worker_upd r x) = t_ev x /\ (busy_ann (worker_upd r x) = true -> busy_ann x = true).
+Proof.
+  ssplit; [apply worker_upd_id | apply worker_upd_ev |].
+  unfold worker_upd, busy_ann. destruct (event_eqb (t_ev x) EvScrape); [simpl; discriminate |].
+  destruct r as [? ? | [[? ?] |]]; simpl; discriminate.
+Qed.
+
+Lemma J_reply_now id r s : J s -> J (reply_now id r s).
+Proof.
+  intros H. unfold reply_now. destruct (find_id (trs s) id); [| exact H]. destruct (negb (t_busy t)); [exact H |].
+  apply J_main_part. apply J_upd; [apply worker_upd_J | exact H].
+Qed.
+
+Lemma J_perform_n fuel : forall s, J s -> J (perform_n fuel s).
+Proof.
+  induction fuel as [| fuel IH]; intros s H; simpl; [exact H |]. unfold perform1.
+  match goal with |- context [if ?c then Some (do_timeout s) else _] => destruct c end.
+  - apply IH. destruct (do_timeout_E s) as [_ (_ & k)]. apply k. exact H.
+  - match goal with |- context [if ?c then Some _ else None] => destruct c end; [| exact H].
+    apply IH. destruct (do_scrape_frame (set_tsc s None)) as [_ (_ & k)]. apply k.
+    apply (J_same s); try reflexivity. exact H.
+Qed.
+
+Lemma J_insert g scr s : ids_inv s -> J s -> J (insert_op g scr s).
+Proof.
+  intros Hi (Jk & Jt & Jm & Jp & Js). unfold insert_op.
+  set (tn := mkT (length (trs s)) g true false EvNone 0 0 0 0 min_normal min_min scr 0).
+  assert (H1 : J (set_trs s (insert_tracker tn (trs s)))).
+  { unfold J, ids in *. simpl. ssplit; auto.
+    - eapply Forall_impl; [| exact Jk]. intros r Hr. simpl in Hr.
+      eapply Permutation_in; [apply Permutation_map, Permutation_sym, insert_perm |]. simpl. right. exact Hr.
+    - eapply Permutation_Forall; [apply Permutation_sym, insert_perm |]. constructor; [| exact Jt].
+      split.
+      + unfold Pev. rewrite newest_none; [left; reflexivity |].
+        eapply Forall_impl; [| exact Jk]. intros r Hr E. simpl in Hr, E. unfold tn in E. simpl in E.
+        unfold ids_inv, ids in Hi. apply (Permutation_in _ Hi) in Hr. apply in_seq in Hr. lia.
+      + unfold Ppend. intros. reflexivity. }
+  match goal with |- context [if ?c then _ else if ?d then _ else _] => destruct c; [exact H1 | destruct d] end;
+    [apply J_update_timeout |]; exact H1.
+Qed.
+
+Lemma J_step s o : Inv s -> ids_inv s -> J s -> J (step s o).
+Proof.
+  intros (Hm & _) Hi H.
+  assert (KS : forall s', keeps s s' -> J s') by (intros s' (_&_&_&_&_&_&_&k); apply k; exact H).
+  destruct o; simpl.
+  - apply J_ctl_enable; exact H.
+  - unfold ctl_disable. destruct (negb (f_active (fl s))); [exact H |]. apply (J_same s); try reflexivity. exact H.
+  - apply (J_same s); try reflexivity. exact H.
+  - apply KS. apply send_start_event_spec.
+  - apply KS. apply send_stop_event_spec.
+  - apply KS. apply send_completed_event_spec.
+  - apply KS. apply (send_update_event_spec s Hm).
+  - unfold manual_request. destruct (tmo s); [| exact H]. apply KS. apply (send_update_event_spec s Hm).
+  - unfold start_requesting. destruct (f_requesting (fl s)); [exact H |].
+    destruct (f_active (fl s)); [apply J_update_timeout |]; apply (J_same s); try reflexivity; exact H.
+  - unfold stop_requesting. destruct (negb (f_requesting (fl s))); [exact H |]. apply (J_same s); try reflexivity. exact H.
+  - unfold tracker_enable. destruct (find_id (trs s) id); [| exact H]. destruct (t_en t); [exact H |].
+    match goal with |- context [set_trs s (upd (trs s) id ?f)] => assert (H1 : J (set_trs s (upd (trs s) id f))) by (apply J_upd; [intros y; ssplit; auto | exact H]) end.
+    match goal with |- context [if ?c then _ else if ?d then _ else _] => destruct c; [exact H1 | destruct d] end; [apply J_update_timeout |]; exact H1.
+  - unfold tracker_disable. destruct (find_id (trs s) id); [| exact H]. destruct (negb (t_en t)); [exact H |].
+    match goal with |- context [set_trs s (upd (trs s) id ?f)] => assert (H1 : J (set_trs s (upd (trs s) id f))) by (apply J_upd; [intros y; ssplit; auto | exact H]) end.
+    match goal with |- context [if ?c then _ else _] => destruct c end; [apply J_update_timeout |]; exact H1.
+  - apply (J_perm s); [apply cycle_perm | reflexivity | reflexivity | reflexivity | reflexivity | exact H].
+  - apply J_reply_now; exact H.
+  - apply J_reply_now; exact H.
+  - unfold perform. apply J_perform_n. apply (J_same s); try reflexivity. exact H.
+  - destruct (tmo s); [| exact H]. unfold perform. apply J_perform_n. apply (J_same s); try reflexivity. exact H.
+  - apply (J_same s); try reflexivity. exact H.
+  - destruct skip_tracker.
+    + apply (J_same (ctl_enable false s)); try reflexivity. apply J_ctl_enable; exact H.
+    + match goal with |- J (send_start_event ?x) => destruct (send_start_event_spec x) as (_&_&_&_&(_&_&_&_&_&_&_&k)&_); apply k end.
+      apply (J_same (ctl_enable true s)); try reflexivity. apply J_ctl_enable; exact H.
+  - destruct skip_tracker; [apply J_ctl_enable; exact H |].
+    destruct (send_start_event_spec (ctl_enable true s)) as (_&_&_&_&(_&_&_&_&_&_&_&k)&_). apply k. apply J_ctl_enable; exact H.
+  - assert (H1 : J (if skip_tracker then s else send_stop_event s)) by (destruct skip_tracker; [exact H | apply KS; apply send_stop_event_spec]).
+    unfold ctl_disable. destruct (negb (f_active (fl _))); [exact H1 |]. eapply J_same; [| | | | | exact H1]; reflexivity.
+  - apply J_insert; assumption.
+  - unfold scrape_request. destruct (Z.max sec 0 =? 0); apply (J_same s); try reflexivity; exact H.
+  - destruct (tsc s); [| exact H]. unfold perform. apply J_perform_n. apply (J_same s); try reflexivity. exact H.
+  - (* ODone *) unfold worker_done. destruct (pend s) eqn:Hp; [exact H |]. destruct (find_id (trs s) id); [| exact H].
+    destruct (negb (t_busy t)); [exact H |].
+    assert (H1 : J (set_trs s (upd (trs s) id (worker_upd r)))) by (apply J_upd; [apply worker_upd_J | exact H]).
+    destruct H1 as (Jk & Jt & Jm & Jp & Js). unfold J, ids in *. simpl in *. ssplit; auto.
+    + rewrite Forall_forall in *. intros y Hy. destruct (Jt y Hy) as [Pe _]. split; [exact Pe |].
+      unfold Ppend. intros id' k Hk Hid. injection Hk as E1 E2. rewrite <- E1 in Hid. clear E1 E2.
+      unfold upd in Hy. apply in_map_iff in Hy. destruct Hy as [z [E Hz]]. subst y.
+      destruct (Nat.eqb (t_id z) id) eqn:Ez;
+        [| apply Nat.eqb_neq in Ez; exfalso; apply Ez; exact Hid].
+      unfold worker_upd, busy_ann. destruct (event_eqb (t_ev z) EvScrape); [reflexivity |]. destruct r as [? ? | [[? ?] |]]; reflexivity.
+    + intros id' k _. rewrite Nat.sub_diag. constructor.
+  - (* ODrain *) unfold drain. destruct (pend s) as [[id [ok scr]] |]; [| exact H]. apply J_main_part.
+    destruct H as (Jk & Jt & Jm & Jp & Js). unfold J, ids in *. simpl. ssplit; auto.
+    + eapply Forall_impl; [| exact Jt]. intros y [Pe _]. split; [exact Pe |]. unfold Ppend. intros; discriminate.
+    + intros; discriminate.
+  - apply (J_same s); try reflexivity. exact H.
+Qed.
+
+Lemma J_init t0 groups : J (init t0 groups).
+Proof.
+  unfold J, init, ids. simpl. ssplit; auto; try (constructor; fail); try (intros; discriminate).
+  assert (H : Forall (fun t => t_ev t = EvNone) (insert_all 0 groups [])) by (apply insert_all_Forall; [reflexivity | constructor]).
+  eapply Forall_impl; [| exact H]. intros t Ht. split; [unfold Pev; simpl; left; exact Ht | unfold Ppend; intros; discriminate].
+Qed.
+
+Lemma ids_inv_init t0 groups : ids_inv (init t0 groups).
+Proof. unfold ids_inv, ids, init. simpl. apply insert_all_ids_seq; [reflexivity | apply Permutation_refl]. Qed.
+
+Lemma J_run ops : forall s, Inv s -> ids_inv s -> J s -> J (run s ops).
+Proof.
+  induction ops as [| o ops IH]; intros s HI Hi HJ; simpl; [exact HJ |].
+  apply IH; [apply Inv_step; exact HI | apply ids_inv_step; [apply HI | exact Hi] | apply J_step; assumption].
+Qed.
+
+Lemma J_reach t0 groups ops : J (run (init t0 groups) ops).
+Proof. apply J_run; [apply Inv_init | apply ids_inv_init | apply J_init]. Qed.
+
+(* A result callback that is still queued for the main thread belongs to the LAST request handed to its
+   tracker: no request went to that tracker since the callback was queued, no announce of it is in flight, and
+   the tracker's latest event is the event carried by its newest logged request (or SCRAPE, if a scrape was
+   started since). *)
+Lemma stale_reply_never_accepts t0 groups ops id k t :
+  let s := run (init t0 groups) ops in
+  pend s = Some (id, k) -> find_id (trs s) id = Some t ->
+  busy_ann t = false /\
+  Forall (fun r => r_id r <> id) (firstn (length (log s) - pmark s) (log s)) /\
+  match newest_for id (log s) with
+  | Some r => t_ev t = r_ev r \/ t_ev t = EvScrape
+  | None => t_ev t = EvNone \/ t_ev t = EvScrape
+  end.
+Proof.
+  cbv zeta. intros Hp Hf. destruct (J_reach t0 groups ops) as (_ & Jt & _ & Jp & _).
+  unfold find_id in Hf. apply find_some in Hf. destruct Hf as [Hin Hid]. apply Nat.eqb_eq in Hid.
+  rewrite Forall_forall in Jt. destruct (Jt t Hin) as [Pe Pp]. ssplit.
+  - eapply Pp; eauto.
+  - eapply Jp; eauto.
+  - unfold Pev in Pe. rewrite Hid in Pe. exact Pe.
+Qed.
+
+(* Hence the pending 'started' / 'completed' flag is cleared by the main thread's queue only for the reply to a
+   request that carried that very event, and that request is the newest one logged for the tracker *)
+Lemma drain_accepts_only_carrier t0 groups ops ev :
+  ev = EvStarted \/ ev = EvCompleted ->
+  let s := run (init t0 groups) ops in
+  pend_flag ev (fl s) = true -> pend_flag ev (fl (step s ODrain)) = false ->
+  exists id r, pend s = Some (id, (true, false)) /\ newest_for id (log s) = Some r /\ r_ev r = ev /\
+    Forall (fun q => r_id q <> id) (firstn (length (log s) - pmark s) (log s)).
+Proof.
+  intros Hev. cbv zeta. set (s := run (init t0 groups) ops). intros Hp Hc.
+  assert (HI : Inv s) by (apply Inv_run, Inv_init). pose proof HI as (Hm & _).
+  assert (Hcl : clears ev s ODrain).
+  { destruct (pend s) as [[id [ok scr]] |] eqn:Hpd.
+    2: { exfalso. rewrite (pend_flag_step ev s ODrain Hev Hm Hp) in Hc; [discriminate |]. simpl. rewrite Hpd. intros (_ & i & t & E & _). discriminate. }
+    destruct (f_active (fl s)) eqn:Ha.
+    2: { exfalso. rewrite (pend_flag_step ev s ODrain Hev Hm Hp) in Hc; [discriminate |]. simpl. intros (E & _). congruence. }
+    destruct (find_id (trs s) id) as [t |] eqn:Hf.
+    2: { exfalso. rewrite (pend_flag_step ev s ODrain Hev Hm Hp) in Hc; [discriminate |]. simpl. rewrite Hpd.
+         intros (_ & i & t & E & F & _). inversion E; subst. congruence. }
+    destruct (event_eqb (t_ev t) ev) eqn:Ee.
+    2: { exfalso. rewrite (pend_flag_step ev s ODrain Hev Hm Hp) in Hc; [discriminate |]. simpl. rewrite Hpd.
+         intros (_ & i & t' & E & F & G). inversion E; subst. rewrite Hf in F. inversion F; subst t'.
+         apply event_eqb_false in Ee. contradiction. }
+    destruct ok, scr; try (exfalso; rewrite (pend_flag_step ev s ODrain Hev Hm Hp) in Hc; [discriminate |]; simpl; rewrite Hpd;
+                           intros (_ & i & t' & E & _); discriminate).
+    simpl. rewrite Hpd. split; [exact Ha |]. exists id, t. ssplit; auto. apply event_eqb_true. exact Ee. }
+  simpl in Hcl. destruct Hcl as (_ & id & t & Hpd & Hf & He).
+  destruct (stale_reply_never_accepts t0 groups ops id (true, false) t Hpd Hf) as (_ & Hno & Hnew).
+  fold s in Hnew, Hno. destruct (newest_for id (log s)) as [r |] eqn:Hn.
+  - exists id, r. ssplit; auto. destruct Hnew as [E | E]; [congruence |]. rewrite He in E. destruct Hev; subst ev; discriminate.
+  - exfalso. rewrite He in Hnew. destruct Hnew as [E | E]; destruct Hev; subst ev; discriminate.
+Qed.
+
+(* every scrape ever handed to a worker went to an idle, enabled, scrapable tracker at least the gap after its last scrape *)
+Lemma scrapes_only_idle t0 groups ops T t :
+  In (T, t) (slog (run (init t0 groups) ops)) ->
+  t_busy t = false /\ t_en t = true /\ t_scr t = true /\ (t_sct t + scrape_min_gap) * usec <= T.
+Proof.
+  intros Hin. destruct (J_reach t0 groups ops) as (_ & _ & _ & _ & Js). rewrite Forall_forall in Js.
+  exact (Js (T, t) Hin).
 Qed.
